@@ -124,8 +124,8 @@ func buildHistCalls(filesDir string) ([]histCall, [][]byte) {
 			encs[i].o = withDefaults(encs[i].o)
 		}
 	}
-	files := make([][]byte, len(encs)+3)
-	calls := make([]histCall, 33)
+	files := make([][]byte, len(encs)+8)
+	calls := make([]histCall, 37)
 	for i, e := range encs {
 		i, e := i, e
 		if filesDir == "" {
@@ -167,22 +167,8 @@ func buildHistCalls(filesDir string) ([]histCall, [][]byte) {
 	dec(16, "Decode(file#8 lossless)", files[8], "lossless.Decoder")
 	dec(17, "Decode(file#9 palette)", files[9], "lossless.Decoder")
 	dec(18, "Decode(file#11 lossless alpha)", files[11], "lossless.Decoder")
-	{
-		// a lossy decode that really fails inside the bitstream: garbage usually still "decodes", so the payload is cut
-		// (the frame header then announces more partition data than the chunk holds), the container stays consistent
-		bad := corruptPayload(files[4], "VP8 ")
-		if _, err := webp.Decode(bytes.NewReader(bad)); err == nil {
-			pl := findChunk(files[4], "VP8 ")
-			for _, keep := range []int{len(pl) / 2, len(pl) / 4, 30, 12} {
-				cand := wrapVP8(pl[:keep])
-				if _, err := webp.Decode(bytes.NewReader(cand)); err != nil {
-					bad = cand
-					break
-				}
-			}
-		}
-		dec(19, "Decode(corrupted file#4: fails mid-picture)", bad, "lossy.Decoder")
-	}
+	// call 19 (a lossy decode that really fails inside the bitstream) is registered below, once its input file is known
+
 	dec(20, "Decode(corrupted file#10: fails mid-stream)", corruptPayload(files[10], "VP8L"), "lossless.Decoder")
 	animIn := []*image.NRGBA{noiseNRGBA(rng, 24, 20, 1), noiseNRGBA(rng, 24, 20, 2)}
 	calls[21] = histCall{"AnimEncode+playback", "", func() (string, any) {
@@ -279,14 +265,39 @@ func buildHistCalls(filesDir string) ([]histCall, [][]byte) {
 			vx.Fatal2("C11: building the lossless animation: %v", err)
 		}
 		files[nEnc+2] = lb.Bytes()
+		// a lossy file whose decode fails inside the bitstream: garbage in the payload usually still "decodes", so the
+		// payload is cut (the frame header then announces more partition data than the chunk holds); the container
+		// stays consistent. Chosen here, in the parent only: children must not make library calls before their history.
+		bad := corruptPayload(files[4], "VP8 ")
+		if _, err := webp.Decode(bytes.NewReader(bad)); err == nil {
+			pl := findChunk(files[4], "VP8 ")
+			for _, keep := range []int{len(pl) / 4, len(pl) / 2, 30, 12} {
+				cand := wrapVP8(pl[:keep])
+				if _, err := webp.Decode(bytes.NewReader(cand)); err != nil {
+					bad = cand
+					break
+				}
+			}
+		}
+		files[nEnc+3] = bad
+		// four more lossy files cut at other places of their token data (where in a macroblock row the decoder gives up
+		// decides what it leaves behind)
+		pl4 := findChunk(files[4], "VP8 ")
+		for k, num := range []int{1, 3, 5, 7} {
+			files[nEnc+4+k] = wrapVP8(pl4[:len(pl4)*num/8])
+		}
 	} else {
-		for k := 0; k < 3; k++ {
+		for k := 0; k < 8; k++ {
 			b, err := os.ReadFile(fmt.Sprintf("%s/file%d.webp", filesDir, nEnc+k))
 			if err != nil {
 				vx.Fatal2("child: %v", err)
 			}
 			files[nEnc+k] = b
 		}
+	}
+	dec(19, "Decode(lossy file cut inside its token data: fails mid-picture)", files[nEnc+3], "lossy.Decoder")
+	for k, num := range []int{1, 3, 5, 7} {
+		dec(33+k, fmt.Sprintf("Decode(lossy file#4 cut to %d/8 of its payload)", num), files[nEnc+4+k], "lossy.Decoder")
 	}
 	dec(29, "Decode(still with raw filtered ALPH)", files[nEnc], "lossy.Decoder")
 	// a valid foreign lossless stream whose palette (17..255 colours) is smaller than the largest index used: the
@@ -451,7 +462,7 @@ func runChild(hist []int) []string {
 func checkC11(args []string) {
 	run := vx.NewRun("C11", "model_checking", args)
 	activeRun = run
-	run.Rule = "TLC enumerates all call histories up to MAXLEN over the 33-call alphabet of spec/Pool.tla (lossy/lossless encodes and decodes with equal and different macroblock grids, parallel and serial paths, partitions/segments/SNS/dither/alpha options, decodes that fail mid-picture, animation, mux) together with the predicted pool reuse; every history is executed in one process with empty pools at its start and GC off; each result is compared with the same call made FIRST in a fresh process; all previously returned images/byte slices are re-hashed after every later call. distinct = distinct histories in which the model predicts (and the hook counters confirm) at least one reuse"
+	run.Rule = "TLC enumerates all call histories up to MAXLEN over the 37-call alphabet of spec/Pool.tla (lossy/lossless encodes and decodes with equal and different macroblock grids, parallel and serial paths, partitions/segments/SNS/dither/alpha options, decodes that fail mid-picture, animation, mux) together with the predicted pool reuse; every history is executed in one process with empty pools at its start and GC off; each result is compared with the same call made FIRST in a fresh process; all previously returned images/byte slices are re-hashed after every later call. distinct = distinct histories in which the model predicts (and the hook counters confirm) at least one reuse"
 	run.Assumptions = []string{"a fresh child process executing the call first defines Fresh(args)", "sync.Pool may drop objects: a predicted reuse that did not happen is reported as not covered, never as a violation", "GOMAXPROCS fixed to 8"}
 	runtime.GOMAXPROCS(8)
 	calls, files := buildHistCalls("")
